@@ -6,7 +6,19 @@ RULE = ("exhaustive: all shape pairs (h1,w1),(h2,w2) in 0..5 x 0..5 (1296) x 3 i
         "shapes, random law triples; every shared and every outer dimension 6..40, 1x1 factors next to large matrices, "
         "large non-conforming pairs; element types i64, f64 and (values exact in the narrow type) i32, u8, f32; float scalar "
         "multiply/divide by +-0, +-inf, NaN, subnormal, huge, tiny and non-dyadic scalars on entries of every magnitude; "
-        "float entries 2^-300..2^270 in products; laws also at f64/f32/i32 and for Arr2D::identity; non-trivial = the model's answer is a successful product with at least one "
+        "float entries 2^-300..2^270 in products; laws also at f64/f32/i32 and for Arr2D::identity; "
+        "hardening 4: OBJECT HISTORY - every dot / mul / smul / sdiv / transpose request is repeated (oracle only) on operands "
+        "built through every constructor and conversion of the public API (full + writes, from_flat exact, from_flat padded "
+        "with EVERY number of given items = spare capacity, padded + reshape / row swaps / rows_mut, nested vectors owned "
+        "and borrowed, array literals incl. 0 x N, map, transposes incl. 0 x N from N empty rows, clone, clone_from into a "
+        "larger (padded) array, TryFrom<&Arr2D>, results of a product / scalar product) and the ORIGINAL objects - never "
+        "clones - are moved into / borrowed by the checked product and all four operator forms (both scalar ownership forms): "
+        "every result must be the one of the plainly built operands (floats: inside the rounding bound), operands untouched, "
+        "size() = h*w; extra shapes (k, n) in 2..8 x 1..10 (n > k, n = k, n < k) at all element types; DUPLICATES - equal "
+        "operands (then also one object on both sides: a.dot(&a), &a * &a), a . a^T, constant matrices, repeated rows / "
+        "columns, 1x1 operands equal to the entries; NEAR-STRUCTURE - identity / diagonal / permutation / symmetric / "
+        "triangular / all-ones factors exact and with ONE entry moved by a relative 2^-20..2^-45, integer factors one unit off, "
+        "scalars and 1x1 operands next to 1, -1, 1/2, 2 at every distance 2^-20..2^-52; non-trivial = the model's answer is a successful product with at least one "
         "entry (not an error, not an empty array); distinct = distinct request lines")
 
 def _norm(s):
